@@ -223,6 +223,22 @@ theorem graphics_horizontal_blank {L} (lines : List L) (W H tl tt c r : Nat) (hc
   rw [if_pos hcond]
   simp
 
+/-- ROW SELECTION IS INDEPENDENT OF THE DISGUISE STATE. For every disguise count `d` (canvas-class state + widget
+    state, times "kitty or iterm2-on-konsole"): a vertically trimmed request yields exactly `r` rows, and they are the
+    rows of the undisguised answer with the suffix of state `d` appended to each SELECTED line — the disguise never
+    changes which or how many lines are yielded. -/
+theorem graphics_rows_any_disguise {L} (lines : List L) (W H tt r : Nat) (hlen : lines.length = H) (hr : 0 < r)
+    (hfr : tt + r ≤ H) (cI rI : Int) (hcI : pyOr cI W = W) (hrI : pyOr rI H = r) (d : Nat) :
+    (gfxContent lines W H 0 tt cI rI d).length = r ∧
+    gfxContent lines W H 0 tt cI rI d = (gfxContent lines W H 0 tt cI rI 0).map (GRow.setDisguise d) := by
+  rw [graphics_vertical lines W H tt r hlen hr hfr cI rI hcI hrI d, graphics_vertical lines W H tt r hlen hr hfr cI rI hcI hrI 0]
+  refine ⟨by simp; omega, ?_⟩
+  rw [List.map_map]
+  rfl
+
+example : gfxContent ["a", "b", "c"] 4 3 0 1 0 2 (disguiseCount 2 1 true false false)
+    = [GRow.line "b" 3, GRow.line "c" 3] := by decide
+
 example : gfxContent ["a", "b", "c"] 4 3 0 1 0 2 1 = [GRow.line "b" 1, GRow.line "c" 1] := by decide
 
 /-! ## sizing -/
